@@ -119,6 +119,27 @@ class ObjectPath (str):
     dbusSignature = 'o'
 
 
+class Double(float):
+    """
+    Used during Variant serialization to ensure that this type is
+    encoded rather than the generic Python type
+    """
+    dbusSignature = 'd'
+
+
+class String(str):
+    """
+    Used during Variant serialization to ensure that this type is
+    encoded rather than the generic Python type
+    """
+    dbusSignature = 's'
+
+    def __new__(cls, value):
+        if not isinstance(value, str):
+            raise TypeError('Required string. Received: ' + repr(value))
+        return str.__new__(cls, value)
+
+
 variantClassMap = {
     'y': Byte,
     'b': Boolean,
@@ -128,6 +149,8 @@ variantClassMap = {
     'u': UInt32,
     'x': Int64,
     't': UInt64,
+    'd': Double,
+    's': String,
     'g': Signature,
     'o': ObjectPath,
 }
